@@ -18,6 +18,7 @@ def config_names():
     names = ["C-" + c for c in string.ascii_lowercase] + ["C-[", "C-\\", "C-]", "C-^", "C-_"]
     names += ["M-" + chr(c) for c in range(0x21, 0x7F)]
     names += ["F%d" % i for i in range(1, 13)]
+    names += ["F01", "F09", "F012", "F001"]  # zero-padded spellings are accepted by the F-key branch
     return names
 
 
@@ -29,6 +30,8 @@ def run(ctx):
         rep.merge(d, "decision_tree")
     rep.merge(c03.shard_lead_only((ctx.tier, ctx.seed)), "decision_tree")
     nodes = rep.extra.get("nodes", 0)
+    for d in ctx.pmap(c03.shard_history, [(ctx.tier, ctx.seed, i) for i in range(4)]):
+        rep.merge(d, "history_independence")
     rep.fail = {k: v for k, v in rep.fail.items() if k.startswith("C20:") or k.startswith("harness:")}
     ref = D.Ref()
     acc = Acc(seed=ctx.seed)
